@@ -121,9 +121,15 @@ def main():
         for s in range(nshards):
             errlog = os.path.join(VERIF, 'build', 'log', '%s.%s.%s.%d.err' % (pid, tier, drv, s))
             cmd = base + ['--shard', str(s), '--nshards', str(nshards), '--deadline', str(deadline), '--errlog', errlog]
-            procs.append((s, errlog, subprocess.Popen(cmd, stdout=subprocess.PIPE, stderr=subprocess.PIPE, text=True, env=env, cwd=VERIF)))
-        for s, errlog, p in procs:
-            out, err = p.communicate()
+            # shard output goes to files: a pipe that is not being read would block a chatty shard
+            outf = open(errlog[:-4] + '.out', 'w+')
+            errf = open(errlog[:-4] + '.stderr', 'w+')
+            procs.append((s, errlog, subprocess.Popen(cmd, stdout=outf, stderr=errf, env=env, cwd=VERIF), outf, errf))
+        for s, errlog, p, outf, errf in procs:
+            p.wait()
+            outf.seek(0); errf.seek(0)
+            out, err = outf.read(), errf.read()
+            outf.close(); errf.close()
             log.write('== %s shard %d rc=%d\n%s\n%s\n' % (drv, s, p.returncode, out[-200000:], err[-5000:]))
             done = False
             for line in out.splitlines():
